@@ -56,6 +56,47 @@ TWO_NS_B = '''<?xml version="1.0"?>
 '''
 
 
+HUB_XSD = '''<?xml version="1.0"?>
+<xs:schema xmlns:xs="http://www.w3.org/2001/XMLSchema" elementFormDefault="qualified">
+  <xs:element name="tree" type="TreeType"/>
+  <xs:complexType name="TreeType"><xs:sequence><xs:element name="hub" type="HubType" maxOccurs="unbounded"/><xs:element name="part" type="PartClass" minOccurs="0"/></xs:sequence></xs:complexType>
+  <xs:complexType name="LeafOne"><xs:sequence><xs:element name="up" type="HubType" minOccurs="0"/></xs:sequence></xs:complexType>
+  <xs:complexType name="LeafTwo"><xs:sequence><xs:element name="up" type="HubType" minOccurs="0"/></xs:sequence></xs:complexType>
+  <xs:complexType name="LeafThree"><xs:sequence><xs:element name="up" type="HubType" minOccurs="0"/><xs:element name="side" type="LeafOne" minOccurs="0"/></xs:sequence></xs:complexType>
+  <xs:complexType name="HubType"><xs:sequence>
+    <xs:element name="one" type="LeafOne" minOccurs="0" maxOccurs="unbounded"/><xs:element name="two" type="LeafTwo" minOccurs="0"/><xs:element name="three" type="LeafThree" minOccurs="0"/>
+  </xs:sequence></xs:complexType>
+  <xs:complexType name="PartClass"><xs:sequence><xs:element name="n" type="xs:int"/></xs:sequence></xs:complexType>
+</xs:schema>
+'''
+SAME_MAIN = '''<?xml version="1.0"?>
+<xs:schema xmlns:xs="http://www.w3.org/2001/XMLSchema" targetNamespace="urn:main" xmlns:m="urn:main" xmlns:b="urn:bill" xmlns:s="urn:ship" elementFormDefault="qualified">
+  <xs:import namespace="urn:bill" schemaLocation="billing_v1.xsd"/>
+  <xs:import namespace="urn:ship" schemaLocation="shipping_v2.xsd"/>
+  <xs:element name="order"><xs:complexType><xs:sequence>
+    <xs:element name="bill" type="b:Address"/><xs:element name="ship" type="s:Address"/><xs:element name="own" type="m:Address" minOccurs="0"/>
+    <xs:element name="kind" type="s:Kind" minOccurs="0"/>
+  </xs:sequence></xs:complexType></xs:element>
+  <xs:complexType name="Address"><xs:sequence><xs:element name="note" type="xs:string"/></xs:sequence></xs:complexType>
+</xs:schema>
+'''
+SAME_BILL = '''<?xml version="1.0"?>
+<xs:schema xmlns:xs="http://www.w3.org/2001/XMLSchema" targetNamespace="urn:bill" xmlns:b="urn:bill" elementFormDefault="qualified">
+  <xs:complexType name="Address"><xs:sequence><xs:element name="street" type="xs:string"/></xs:sequence><xs:attribute name="kind" type="b:Kind"/></xs:complexType>
+  <xs:simpleType name="Kind"><xs:restriction base="xs:string"><xs:enumeration value="home"/><xs:enumeration value="work"/></xs:restriction></xs:simpleType>
+</xs:schema>
+'''
+SAME_SHIP = '''<?xml version="1.0"?>
+<xs:schema xmlns:xs="http://www.w3.org/2001/XMLSchema" targetNamespace="urn:ship" xmlns:s="urn:ship" elementFormDefault="qualified">
+  <xs:complexType name="Address"><xs:sequence><xs:element name="dock" type="xs:int"/></xs:sequence><xs:attribute name="kind" type="s:Kind"/></xs:complexType>
+  <xs:simpleType name="Kind"><xs:restriction base="xs:string"><xs:enumeration value="sea"/><xs:enumeration value="air"/></xs:restriction></xs:simpleType>
+</xs:schema>
+'''
+# structure styles are a dimension of the synthetic source sets (module assignment and cross-module imports depend on them)
+STYLES = ["filenames", "clusters", "namespaces", "single-package", "namespace-clusters"]
+STYLED = ["cycle", "two-namespaces", "hub", "same-name"]
+
+
 def _read(rel):
     with open(os.path.join(FIX, rel), "rb") as f:
         return f.read()
@@ -66,6 +107,8 @@ def corpus() -> dict[str, dict]:
     c = {
         "cycle": dict(sources={"cycle.xsd": CYCLE_XSD}, uris=["cycle.xsd"]),
         "two-namespaces": dict(sources={"na.xsd": TWO_NS_A, "nb.xsd": TWO_NS_B}, uris=["na.xsd"]),
+        "hub": dict(sources={"hub.xsd": HUB_XSD}, uris=["hub.xsd"]),
+        "same-name": dict(sources={"main.xsd": SAME_MAIN, "billing_v1.xsd": SAME_BILL, "shipping_v2.xsd": SAME_SHIP}, uris=["main.xsd"]),
         "primer": dict(sources={"order.xsd": _read("primer/order.xsd")}, uris=["order.xsd"]),
         "books": dict(sources={"schema.xsd": _read("books/schema.xsd")}, uris=["schema.xsd"]),
         "compound": dict(sources={"schema.xsd": _read("compound/schema.xsd")}, uris=["schema.xsd"], options={"compound_fields.enabled": True}),
@@ -123,43 +166,47 @@ def first_diff(a: dict, b: dict) -> str:
 _BASE: dict = {}
 
 
+def style_opts(style: str) -> dict:
+    return {} if style in ("", "filenames") else {"structure_style": style}
+
+
 def baseline(name: str, entry: dict, opt_key: str = ""):
     key = (name, opt_key)
     if key not in _BASE:
         setorder.STATE["enabled"] = False
         setorder.reset_ids(False)
         try:
-            g = gen(entry, "pkgx")
+            g = gen(entry, "pkgx", style_opts(opt_key))
         finally:
             setorder.STATE["enabled"] = True
         if g.error is not None:
             g.cleanup()
-            raise HarnessError(f"corpus entry {name} does not generate: {g.error!r}")
+            raise HarnessError(f"corpus entry {name} ({opt_key or 'filenames'}) does not generate: {g.error!r}")
         _BASE[key] = (dict(g.files), g.log)
         g.cleanup()
     return _BASE[key]
 
 
 @harness("c12.setorder")
-def h_setorder(ch: Chooser, name: str):
+def h_setorder(ch: Chooser, name: str, style: str = ""):
     entry = corpus()[name]
-    base_files, _ = baseline(name, entry)
+    base_files, _ = baseline(name, entry, style)
     desc = ch.flag("id-direction")
     setorder.reset_ids(desc)
     setorder.STATE["sites"].clear()
-    g = gen(entry, "pkgx")
+    g = gen(entry, "pkgx", style_opts(style))
     try:
         sites = dict(setorder.STATE["sites"])
         perm_points = [(p[0], p[3]) for p in ch.points if p[0].startswith("setorder@") and p[3]]
-        case = {"source_set": name, "id_direction": "descending" if desc else "ascending", "non_default_set_orders": [f"{l} -> permutation #{c}" for l, c in perm_points],
+        case = {"source_set": name, "structure_style": style or "filenames", "id_direction": "descending" if desc else "ascending", "non_default_set_orders": [f"{l} -> permutation #{c}" for l, c in perm_points],
                 "owned_iteration_sites": len(sites)}
         if g.error is not None:
             return dict(ok=False, case=case, bucket=f"setorder/{name}/generation-fails-under-another-order", detail=repr(g.error))
         if g.files != base_files:
             site = perm_points[0][0].split("@")[1].split("#")[0] if perm_points else "id()"
             return dict(ok=False, case=case, bucket=f"setorder/output-depends-on/{site}", detail=first_diff(base_files, g.files))
-        return dict(ok=True, case=case, obs=digest(g.files), nontrivial=h((name, desc, tuple(perm_points))) if (perm_points or desc) else None,
-                    states=[h((name, s)) for s in sites], transitions=sum(sites.values()), counters={"owned_set_iterations": sum(sites.values())})
+        return dict(ok=True, case=case, obs=digest(g.files), nontrivial=h((name, style, desc, tuple(perm_points))) if (perm_points or desc) else None,
+                    states=[h((name, style, s)) for s in sites], transitions=sum(sites.values()), counters={"owned_set_iterations": sum(sites.values())})
     finally:
         g.cleanup()
 
@@ -186,6 +233,62 @@ def h_twice(ch: Chooser, name: str):
             return dict(ok=True, case=case, obs=digest(files1), nontrivial=h(("twice", name)))
         finally:
             g2.cleanup()
+    finally:
+        setorder.STATE["enabled"] = True
+
+
+CONVENTIONS = [
+    ("default", {}),
+    ("class-snake", {"class_name.case": "snakeCase"}),
+    ("class-prefix+field-pascal", {"class_name.safe_prefix": "K", "field_name.case": "pascalCase"}),
+    ("module-mixed+constant-camel", {"module_name.case": "mixedCase", "constant_name.case": "camelCase"}),
+]
+
+
+def _resolve_conv(conv: dict) -> dict:
+    from xsdata.models.config import NameCase
+    return {k: NameCase(v) if k.endswith(".case") else v for k, v in conv.items()}
+
+
+def gen_conv(entry: dict, conv: dict, reset=True, keep_cwd=None):
+    opts = dict(entry.get("options") or {})
+    return CG.generate(entry["sources"], entry.get("uris"), package="pkgx", options=_resolve(opts), conventions=_resolve_conv(conv), reset_caches=reset, keep_cwd=keep_cwd)
+
+
+@harness("c12.sequence")
+def h_sequence(ch: Chooser, name: str, pristine: dict):
+    """Run the generator with one set of naming conventions and then with another in the same process: the second output must be what
+    a pristine interpreter produces for it (digests computed in fresh processes by run())."""
+    entry = corpus()[name]
+    ai = ch.choose(len(CONVENTIONS), "first-conventions", free=True)
+    bi = ch.choose(len(CONVENTIONS), "second-conventions", free=True)
+    if ai == bi:
+        return {"skip": True, "reason": "same conventions twice (covered by the twice leg)"}
+    setorder.STATE["enabled"] = False
+    try:
+        a = gen_conv(entry, CONVENTIONS[ai][1])
+        # same working directory, process-wide caches NOT reset; only the first run's output files are removed
+        import shutil
+        for rel in a.files:
+            top = os.path.join(a.workdir, rel.split("/")[0])
+            if os.path.isdir(top):
+                shutil.rmtree(top, ignore_errors=True)
+            elif os.path.exists(top):
+                os.remove(top)
+        for m in [m for m in sys.modules if m == "pkgx" or m.startswith("pkgx.")]:
+            del sys.modules[m]
+        b = gen_conv(entry, CONVENTIONS[bi][1], reset=False, keep_cwd=a.workdir)
+        try:
+            case = {"source_set": name, "first_run": CONVENTIONS[ai][0], "second_run": CONVENTIONS[bi][0]}
+            want = pristine[CONVENTIONS[bi][0]]
+            got = digest(b.files) if b.error is None else "ERROR " + repr(b.error)
+            if got != want:
+                return dict(ok=False, case=case, bucket=f"sequence/second-run-differs-from-pristine-process/{CONVENTIONS[bi][0]}",
+                            detail=f"after a run with {CONVENTIONS[ai][0]!r} conventions the {CONVENTIONS[bi][0]!r} run gives {got}, a pristine interpreter gives {want}\n" +
+                                   "\n".join(f"--- {k}\n{v[:600]}" for k, v in sorted(b.files.items()) if not k.endswith("__init__.py"))[:2500])
+            return dict(ok=True, case=case, obs=got, nontrivial=h(("sequence", name, ai, bi)))
+        finally:
+            b.cleanup()
     finally:
         setorder.STATE["enabled"] = True
 
@@ -292,6 +395,36 @@ print("RESULT " + json.dumps(out))
 '''
 
 
+PRISTINE_SCRIPT = r'''
+import json, os, sys
+sys.path.insert(0, {verif!r})
+from vmc.props import c12
+from vmc import setorder
+setorder.STATE["enabled"] = False
+g = c12.gen_conv(c12.corpus()[{name!r}], dict(c12.CONVENTIONS)[{conv!r}])
+print("RESULT " + json.dumps(c12.digest(g.files) if g.error is None else "ERROR " + repr(g.error)))
+g.cleanup()
+'''
+
+
+def pristine_digests(names: list[str]) -> dict:
+    """{name: {conventions name: digest}}, each from its own fresh interpreter (nothing generated before in that process)."""
+    verif = os.path.dirname(os.path.dirname(os.path.dirname(os.path.abspath(__file__))))
+    procs = {}
+    for n in names:
+        for cname, _ in CONVENTIONS:
+            code = PRISTINE_SCRIPT.format(verif=verif, name=n, conv=cname)
+            procs[(n, cname)] = subprocess.Popen([sys.executable, "-c", code], env=dict(os.environ), stdout=subprocess.PIPE, stderr=subprocess.PIPE, text=True, cwd=verif)
+    out: dict = {}
+    for (n, cname), p in procs.items():
+        so, se = p.communicate(timeout=900)
+        line = next((l for l in so.splitlines() if l.startswith("RESULT ")), None)
+        if line is None:
+            raise HarnessError(f"pristine process for {n}/{cname} failed:\n{se[-2000:]}")
+        out.setdefault(n, {})[cname] = json.loads(line[7:])
+    return out
+
+
 def seed_sweep(names: list[str], seeds: list[int]) -> dict:
     """Fresh interpreter per real hash seed; returns {seed: {name: digest}}."""
     verif = os.path.dirname(os.path.dirname(os.path.dirname(os.path.abspath(__file__))))
@@ -315,19 +448,27 @@ def run(tier: str, seed: int) -> int:
     t0 = time.time()
     th = tier == "thorough"
     names = list(corpus())
-    quick_names = names[:8]
+    quick_names = names[:10]
     use = names if th else quick_names
     bound = 2 if th else 1
     if not setorder.TRANSFORMED:
         raise HarnessError("the set-order transform is not installed (vmc.run.SETORDER)")
+    if "toposort" not in setorder.TRANSFORMED:
+        raise HarnessError("the toposort stand-in is not loaded through the set-order transform")
+    seq_names = [n for n in use if n in ("cycle", "same-name", "hub", "primer", "hello-wsdl", "artists-xml")]
+    pristine = pristine_digests(seq_names)
     # baselines in the parent (also proves every corpus entry generates)
     for n in use:
-        baseline(n, corpus()[n])
+        for st in (STYLES if n in STYLED else [""]):
+            baseline(n, corpus()[n], "" if st == "filenames" else st)
     tasks = []
     for n in use:
-        tasks.extend(split_deep(("c12.setorder", dict(name=n), bound, ()), short=2, rounds=2))
+        for st in (STYLES if n in STYLED else [""]):
+            tasks.extend(split_deep(("c12.setorder", dict(name=n, style="" if st == "filenames" else st), bound, ()), short=2, rounds=2))
         tasks.append(("c12.twice", dict(name=n), 0, ()))
         tasks.append(("c12.routes", dict(name=n), 0, ()))
+    for n in seq_names:
+        tasks.append(("c12.sequence", dict(name=n, pristine=pristine[n]), 0, ()))
     stats = parallel(tasks, explore_task_split)
     # real hash seeds in fresh processes
     seeds = list(range(32)) if th else [0, 1, 2, 3]
@@ -352,10 +493,13 @@ def run(tier: str, seed: int) -> int:
         rule=(f"{len(use)} source sets (xsd with cycles / two namespaces / unions / enums, upstream fixtures: xsd, dtd, wsdl, xml and json samples); the code generator modules of the tree are loaded "
               f"through an AST transform that owns every set(...) / set display / set comprehension iteration and id(): every choice vector with <= {bound} non-default answers over "
               "(permutation at every reached set-iteration site: all n! for n <= 4, else reverse / rotations / adjacent swaps; id() ascending or descending) must give byte-identical files; "
-              f"PYTHONHASHSEED in {seeds[0]}..{seeds[-1]} in fresh processes; twice in one process on top of the first output; API vs config file vs CLI flags for 13 option deviations. "
+              f"PYTHONHASHSEED in {seeds[0]}..{seeds[-1]} in fresh processes; twice in one process on top of the first output; every ordered pair of {len(CONVENTIONS)} naming-convention sets run one after "
+              f"the other in one process, the second compared with a pristine interpreter ({len(seq_names)} source sets); API vs config file vs CLI flags for 13 option deviations. The synthetic source sets "
+              f"({', '.join(STYLED)}) are run under all {len(STYLES)} structure styles. "
               "states = distinct owned set-iteration sites reached, transitions = owned iterations."),
         assumptions=["files are compared before ruff (a no-op stand-in): byte identity of what xsdata itself renders",
-                     "sets produced by C-level set algebra (a - b, a | b) are not owned by the transform; they are covered only by the real hash-seed sweep",
+                     "set algebra on owned sets stays owned; sets that never pass through a transformed expression (dict views, sets built in C or outside the listed modules) are covered only by the real hash-seed sweep",
+                     "the toposort stand-in is loaded through the same transform (the real package iterates sets on the generator's behalf when sort=False)",
                      "include_header (embeds the current time) is excluded from the claim",
                      "the CLI route runs xsdata's own option mapping through a stand-in for click"],
         bound={"set_order_deviations": bound, "hash_seeds": len(seeds), "source_sets": use},
